@@ -493,8 +493,15 @@ where
 
     fn announce_to_down(&mut self, num_members: usize, mut runtime: impl Runtime<T>) -> Result<()> {
         self.choice_buf.clear();
-        self.members
-            .choose_down_members(num_members, &mut self.choice_buf, &mut self.rng);
+        // Previous identities of this very instance are kept as Down
+        // members too: announcing to them would be talking to ourselves
+        let own_addr = self.identity.addr();
+        self.members.choose_down_members_if(
+            num_members,
+            &mut self.choice_buf,
+            &mut self.rng,
+            |candidate| candidate.addr() != own_addr,
+        );
 
         while let Some(chosen) = self.choice_buf.pop() {
             self.send_message(chosen.into_identity(), Message::Announce, &mut runtime)?;
